@@ -40,7 +40,7 @@ PROPS["C02"] = dict(
 
 PROPS["C03"] = dict(
     level="proof",
-    verus=["c02_dispatch", "c03_parse_mask", "c03_apply_options", "c03_option_text", "c03_check_options", "c05_optimizer"],
+    verus=["c02_dispatch", "c03_parse_mask", "c03_apply_options", "c03_option_text", "c03_check_options", "c05_optimizer", "c06_matches"],
     labels=["C03.", "C05.select."] + MASK,
     kani=[KaniSet("src/filters/network_matchers.rs", "c03_options.rs", [
         Harness("c03_options_nodomain", "C03.options.nodomain", "C", "full domain: 2^32 masks x 17 request types x scheme x party; loop-free"),
@@ -81,7 +81,7 @@ PROPS["C04"] = dict(
 
 PROPS["C06"] = dict(
     level="proof",
-    verus=["c04_partition", "c10_engine", "c02_regex"],
+    verus=["c04_partition", "c10_engine", "c02_regex", "c06_matches"],
     labels=["C06.", "C07.engine.", "C10.engine.ok_replaces_rules", "C07.tags_with_set.", "C02.regex.make.function_of_inputs", "C02.regex.compile.function_of_inputs"] + MASK,
     kani=[],
     witness=["c06_cache.rs"],
